@@ -68,7 +68,8 @@ def TraceLine(case, res):
     obs.append({'p': p, 'ordered': p in case.get('ordered', ()),
                 'rows': [{c: _FloatFix(v) for c, v in r.items()}
                          for r in pr['rows']]})
-  return {'id': case['id'], 'prog': StripForTlc(case['prog']), 'obs': obs}
+  return {'id': case['id'], 'prog': StripForTlc(case['prog']), 'dev': [],
+          'obs': obs}
 
 
 def ParseVerdictLine(line):
